@@ -51,6 +51,7 @@ type model struct {
 	payload  *leaf
 	groups   []string // all pointer-embedded groups
 	desc     []string
+	colSet   map[string]bool // the column names, as spelled
 }
 
 func parseTag(tag string) map[string]string {
@@ -173,10 +174,11 @@ func walk(t reflect.Type, prefix string, path []string, groups []string, out *[]
 }
 
 func newModel(t reflect.Type, table string, useTable bool) *model {
-	m := &model{typ: t, table: table, useTable: useTable}
+	m := &model{typ: t, table: table, useTable: useTable, colSet: map[string]bool{}}
 	walk(t, "", nil, nil, &m.leaves)
 	for i, l := range m.leaves {
 		l.ord = i
+		m.colSet[l.col] = true
 		if l.pk {
 			m.pks = append(m.pks, l)
 		}
@@ -259,6 +261,8 @@ var innerPool = []nameCol{
 	{"X", "x"}, {"Y", "y"}, {"Zed", "zed"}, {"Part", "part"}, {"QVal", "q_val"}, {"Rate", "rate"}, {"Num", "num"}, {"Txt", "txt"}, {"When", "when"},
 }
 
+var reservedCols = []string{"order", "group", "select", "from", "where", "index", "table", "values", "primary", "default", "check", "join", "limit", "unique", "key", "by", "to", "not", "null", "desc"}
+
 type gen struct {
 	r     *core.Rand
 	feats map[string]bool
@@ -326,6 +330,10 @@ func (g *gen) leafField(nc nameCol, k kind, inPtrEmb bool) reflect.StructField {
 		if r.Chance(1, 4) {
 			tags = append(tags, "column:"+nc.goName+"_MiX")
 			feat("column:mixedcase")
+		} else if r.Chance(1, 4) {
+			// a column whose name is an SQL keyword (two fields drawing the same word: the model is generated again)
+			tags = append(tags, "column:"+core.Pick(r, reservedCols))
+			feat("column:keyword")
 		} else {
 			tags = append(tags, "column:c_"+nc.col)
 			feat("column")
@@ -414,6 +422,88 @@ func sfield(name string, t reflect.Type, tag string) reflect.StructField {
 	return f
 }
 
+// withColumn returns the field with its column: tag set to col.
+func withColumn(sf reflect.StructField, col string) reflect.StructField {
+	var parts []string
+	for _, p := range strings.Split(sf.Tag.Get("gorm"), ";") {
+		if p == "" || strings.HasPrefix(strings.ToLower(p), "column:") {
+			continue
+		}
+		parts = append(parts, p)
+	}
+	parts = append(parts, "column:"+col)
+	sf.Tag = reflect.StructTag(`gorm:"` + strings.Join(parts, ";") + `"`)
+	return sf
+}
+
+// aliasColumn turns the model into a "legacy table": the column of one top-level field A is spelled
+// exactly like the Go name of ANOTHER field B (top-level, key or leaf of an embedded struct) whose own
+// column is a different one; in the crossed variant B's column is spelled like A's Go name as well.
+// A name handed to gorm as a column (a result column, a map key) then also is the Go name of another
+// field. Fields are changed in place; the caller's column-uniqueness check still applies.
+func (g *gen) aliasColumn(all []reflect.StructField) {
+	r := g.r
+	var leaves []*leaf
+	walk(reflect.StructOf(all), "", nil, nil, &leaves)
+	lcols := map[string]int{}
+	for _, l := range leaves {
+		lcols[strings.ToLower(l.col)]++
+	}
+	top := map[string]int{} // Go name -> index in all, for top-level leaf fields that may be renamed
+	var as []int
+	for i, f := range all {
+		tag := parseTag(f.Tag.Get("gorm"))
+		_, emb := tag["EMBEDDED"]
+		_, pk := tag["PRIMARYKEY"]
+		if (emb && isEmbeddable(f.Type)) || pk || f.Name == "ID" || f.Name == "Payload" {
+			continue
+		}
+		top[f.Name] = i
+		as = append(as, i)
+	}
+	if len(as) == 0 {
+		return
+	}
+	ai := core.Pick(r, as)
+	a := all[ai]
+	type cand struct {
+		name   string
+		rename int // index in all of B when its own column has to move out of the way, else -1
+	}
+	var bs []cand
+	for _, l := range leaves {
+		last := l.path[len(l.path)-1]
+		if last == "Payload" || (len(l.path) == 1 && last == a.Name) {
+			continue
+		}
+		n := lcols[strings.ToLower(last)]
+		bi, isTop := top[last]
+		switch {
+		case n == 0:
+			bs = append(bs, cand{last, -1})
+		case n == 1 && isTop && len(l.path) == 1 && strings.ToLower(l.col) == strings.ToLower(last) && lcols["c_"+strings.ToLower(l.col)] == 0:
+			bs = append(bs, cand{last, bi})
+		}
+	}
+	if len(bs) == 0 {
+		return
+	}
+	b := core.Pick(r, bs)
+	bi, isTop := top[b.name]
+	// crossed: B is a top-level field too and takes A's Go name as its column
+	if isTop && all[bi].Name == b.name && r.Chance(1, 3) {
+		all[bi] = withColumn(all[bi], a.Name)
+		all[ai] = withColumn(a, b.name)
+		g.feats["column:crossed-go-names"] = true
+		return
+	}
+	if b.rename >= 0 {
+		all[b.rename] = withColumn(all[b.rename], "c_"+snake(b.name))
+	}
+	all[ai] = withColumn(a, b.name)
+	g.feats["column:go-name-of-other-field"] = true
+}
+
 // genModel generates one model type.
 func genModel(r *core.Rand, n int) (*model, []string, []string) {
 	g := &gen{r: r, feats: map[string]bool{}, kinds: map[string]bool{}}
@@ -480,6 +570,9 @@ func genModel(r *core.Rand, n int) (*model, []string, []string) {
 	}
 	// field order: key first in most models, anywhere in the others
 	all := append(append([]reflect.StructField(nil), keys...), rest...)
+	if r.Chance(1, 4) {
+		g.aliasColumn(all)
+	}
 	if r.Chance(1, 3) {
 		p := r.Perm(len(all))
 		sh := make([]reflect.StructField, len(all))
